@@ -12,7 +12,7 @@ EXH_TOTAL = {"quick": 400000, "thorough": 30000000}  # per TLC run: sum of runs 
 
 def run(chk, mode="three"):
     tier = chk.tier
-    per_prog = 5 if tier == "quick" else 14
+    per_prog = 6 if tier == "quick" else 14
     jobs = progs.jobs(tier, chk.seed, per_prog=per_prog)
     recs, failed = mc.compile_jobs(chk, jobs)
     chk.note("programs_compiled", len(recs))
@@ -20,6 +20,10 @@ def run(chk, mode="three"):
     chk.traces += len(recs)
     if not recs:
         raise lib.ToolError("nothing compiled")
+    recs, illtyped = mc.typecheck(chk, recs)
+    for b, detail in illtyped:
+        chk.violation(dict(mc.describe(b), invariant="WellTyped"),
+                      {"job": {k: b[k] for k in ("id", "name", "owners", "outs", "mode")}, "what": "a node of the exported graph records a type that differs from the type of its operation", "tlc": detail})
     plan = []  # (ring, exhaustive?, recs)
     exh = {1: [], 2: []}
     sim = {1: [], 2: [], 8: []}
